@@ -168,7 +168,7 @@ func runC04(c *core.Ctx) {
 			want string
 		}{{svcF, "service"}, {objF, "object"}, {actF, "action"}} {
 			ok := len(rs) > 0
-			sent0 := core.RootOf(core.Canon(cc.send.Common().Args[0]))
+			sent0 := core.RootOf(core.Canon(sentMessageArg(cc.send)))
 			fld, kk := fe.f, k
 			isHdrF := func(v ssa.Value) bool { return isFieldOf(v, fld) && isParamRooted(v) }
 			isSentF := func(v ssa.Value) bool {
@@ -185,7 +185,7 @@ func runC04(c *core.Ctx) {
 		// message id: the id of the message built for this call
 		isHdrID := func(v ssa.Value) bool { return isFieldOf(v, idF) && isParamRooted(v) }
 		// the message this call sends: the first argument of its Send
-		sent := core.RootOf(core.Canon(cc.send.Common().Args[0]))
+		sent := core.RootOf(core.Canon(sentMessageArg(cc.send)))
 		isOwnID := func(v ssa.Value) bool {
 			if sentHeaderField(cc.subst, sent, idF, v) {
 				return true // the id field of a copy of the sent message's header
